@@ -51,12 +51,11 @@ Qed.
 
 (* swap lemma: two adjacent events of different operations that do not touch the same node lock commute.
 
-   FULL STATEMENT intended for C03 (not proved here):
-     two_phase_serializable : for every run of a lock-disciplined configuration whose operations access the bookkeeping of a node
-     only while holding its lock (footprint_covered, DESIGN.md section 4), the final Model-V state and the outcomes equal those of
-     `fold_left Net.Model.step` over the operations in the order of their last lock acquisition.
-   Missing: model L carries no data (the V-state effect of a critical section), so only the lock-level half - mutual exclusion
-   above and the commutation of independent events below - is proved. *)
+   The data-level theorem (two-phase locking implies serializability in lock-point order, for abstract node data and any
+   deterministic access function) is proved in Conc/TwoPhase.v, together with the fact that every run accepted here is a legal
+   two-phase lock schedule.  What is still NOT proved: that `fold_left Net.Model.step` over the operations in lock-point order
+   gives the final Model-V state of a concurrent run - model L carries no data, and that the operations of virtual.py access a
+   node's bookkeeping only under that node's lock is an assumption (false at virtual.py:1377, see notes/C03.md). *)
 Definition ev_node (e : ev) : option nid :=
   match e with EAcq n _ _ | ERel n _ _ => Some n | _ => None end.
 
